@@ -156,7 +156,10 @@ def collisions(ctx, fns, a, b, how, vectors):
             ctx.count("normalized-collision-seen")
             ctx.nontrivial((a, b, vn, "n"))
             if fa != fb:
-                ctx.viol("C03:normalized-collision-but-fingerprint-differ:%s:%s" % (how, vn), {"a": a, "b": b, "vector": v}, {"N": na, "F(a)": fa, "F(b)": fb})
+                mech = "C03:normalized-collision-but-fingerprint-differ:%s:%s" % (how, vn)
+                if how == "facebook-route-in-another-letter-case":
+                    mech = "C03:normalized-collision-but-fingerprint-differ:" + how  # one mechanism whatever the option vector
+                ctx.viol(mech, {"a": a, "b": b, "vector": v}, {"N": na, "F(a)": fa, "F(b)": fb})
 
 
 def bucket_log(ctx, log):
@@ -245,6 +248,8 @@ def run(ctx):
                 laws(ctx, fns, a, V, log)
                 laws(ctx, fns, b, V, log)
                 collisions(ctx, fns, a, b, "route-case", V)
+            # facebook routes are matched case-sensitively by the platform parser while fingerprint_url lower-cases first (not fed to the log buckets)
+            collisions(ctx, fns, "https://www.facebook.com/Groups/123/Permalink/456", "https://www.facebook.com/Groups", "facebook-route-in-another-letter-case", V)
             for a, b in ESC_TRACKING:
                 ctx.count("escaped-tracking-key")
                 laws(ctx, fns, a, V, log)
